@@ -118,7 +118,7 @@ def run(ctx):
     ctx.cov["simulated_seconds_covered"] = round(sum(o["stats"].get("sim_time", 0.0) for o in res), 1)
     ctx.cov["rule"] = ("(a) seeded edit histories with restore faults (dict, pickle, gzip stream, copy, TreeHolder) at arbitrary steps: restored "
                        "tree must have the same canonical form, labels, nodes, per-clone vectors and densities, and in twin mode stay equal to "
-                       "the un-restored original under every later operation; (b) simulated runs (iterations 3-12, thin 1-7, burn-in 1-5, chains "
+                       "the un-restored original under every later operation; every stored image is restored a second time and again after every later operation and must keep giving the stored tree; (b) simulated runs (iterations 3-12, thin 1-7, burn-in 1-5, chains "
                        "1-3, concentration update on/off, time limit finite with scheduler-chosen expiry or infinite): every entry restores to a "
                        "well-formed tree over all data, log_p_one recomputed under the entry's alpha matches, first entry = post-burn-in tree, "
                        "iteration labels and time fields equal the trace model's prediction from the clock script; distinct for (b) = distinct "
